@@ -200,4 +200,20 @@ def run_case(case):
                 cnt["rebuild"] = cnt.get("rebuild", 0) + 1
         except Exception as exc:
             events.append(ev("force-bias/rebuild-raised", False, key="%s/fb-rebuild-exception" % key0, exc=repr(exc)[:300]))
+    if kind == "multislater" and getattr(trial, "max_excitation", 0) >= 2 and "u" in t["entries"]:
+        # history on ONE trial object: its excitation cut-off lowered in place after it has been used (same wave_data) - the force bias
+        # must be that of a freshly constructed trial with the new cut-off (trial objects are hashed static arguments of jitted methods)
+        from ad_afqmc import wavefunctions as wf_
+
+        k_cut = int(trial.max_excitation) - 1
+        fresh = wf_.multislater(norb, (na, nb), max_excitation=k_cut)
+        wu_m, wd_m = trials.rand_walker(rng, norb, na, nb)
+        _ = np.asarray(trial._calc_force_bias(jnp.array(wu_m), jnp.array(wd_m), hd, wd_))          # used with the old cut-off
+        trial.max_excitation = k_cut
+        fb_mut = np.asarray(trial._calc_force_bias(jnp.array(wu_m), jnp.array(wd_m), hd, wd_))
+        fb_new = np.asarray(fresh._calc_force_bias(jnp.array(wu_m), jnp.array(wd_m), hd, wd_))
+        sc_m = max(1.0, float(np.max(np.abs(fb_new))))
+        events.append(judge("force-bias/cut-off-lowered-in-place-equals-fresh-trial", float(np.max(np.abs(fb_mut - fb_new))) / sc_m, 1e-10,
+                            key0 + "/fb-mutated-trial-object", new_cutoff=k_cut))
+        cnt["mutated_trial_objects"] = 1
     return {"events": events, "nontrivial": nontrivial > 0, "sample": sample, "counters": cnt}
